@@ -41,6 +41,8 @@ def _alarm(signum, frame):
 def worker(args):
     pid, cfg, tier = args
     t0 = time.time()
+    if os.environ.get("VT_TEST_HANG") and os.environ["VT_TEST_HANG"] in cfg["key"]:
+        time.sleep(10**6)  # self-test of the supervisor (tools only)
     out = {"key": cfg["key"], "records": [], "paths": 0, "complete": True, "error": None, "stats": {}, "seconds": 0.0, "path_exceptions": []}
     try:
         mod = load(pid)
@@ -106,6 +108,102 @@ def worker(args):
         out["crash"] = True
     out["seconds"] = round(time.time() - t0, 3)
     return out
+
+
+def _worker_loop(conn):
+    """child process: serve configurations sent over the pipe until None arrives"""
+    try:
+        while True:
+            job = conn.recv()
+            if job is None:
+                break
+            conn.send(worker(job))
+    except (EOFError, KeyboardInterrupt):
+        pass
+
+
+def run_supervised(jobs, njobs, tier, tasks_per_child=40):
+    """Own worker supervision instead of multiprocessing.Pool: a z3 call that neither honours its timeout nor the interrupt
+    (seen: nla::core::patch_monomial on huge rationals, 15 min of CPU inside one solver.check) blocks the worker's main thread in C,
+    where neither the cooperative deadline nor SIGALRM can reach it.  The parent therefore watches every busy worker and KILLS it
+    after the configuration's budget plus a grace period; the configuration is reported as undecided ("worker unresponsive"), a fresh
+    worker takes over, and the run goes on.  A Pool would wait for ever on the lost task."""
+    from multiprocessing.connection import wait as conn_wait
+
+    ctxm = mp.get_context("spawn")
+    pending = list(reversed(jobs))
+    slots = []
+
+    def spawn():
+        pc, cc = ctxm.Pipe()
+        p = ctxm.Process(target=_worker_loop, args=(cc,), daemon=True)
+        p.start()
+        cc.close()
+        return {"p": p, "c": pc, "job": None, "t0": None, "n": 0}
+
+    def retire(s, kill=False):
+        try:
+            if kill:
+                s["p"].kill()
+            else:
+                s["c"].send(None)
+        except Exception:
+            pass
+        try:
+            s["p"].join(2 if not kill else 5)
+            if s["p"].is_alive():
+                s["p"].kill()
+                s["p"].join(5)
+        except Exception:
+            pass
+        try:
+            s["c"].close()
+        except Exception:
+            pass
+
+    def lost(job, why, secs):
+        return {"key": job[1]["key"], "records": [], "paths": 0, "complete": False, "error": why, "stats": {}, "seconds": round(secs, 1), "path_exceptions": [], "allow_empty": True}
+
+    try:
+        slots = [spawn() for _ in range(njobs)]
+        while True:
+            for s in slots:
+                if s["job"] is None and pending:
+                    job = pending.pop()
+                    s["job"], s["t0"] = job, time.time()
+                    s["c"].send(job)
+            busy = [s for s in slots if s["job"] is not None]
+            if not busy:
+                break
+            ready = conn_wait([s["c"] for s in busy], timeout=1.0)
+            now = time.time()
+            for i, s in enumerate(slots):
+                if s["job"] is None:
+                    continue
+                job = s["job"]
+                if s["c"] in ready:
+                    try:
+                        r = s["c"].recv()
+                    except (EOFError, OSError):
+                        r = lost(job, "worker process died", now - s["t0"])
+                        retire(s, kill=True)
+                        slots[i] = spawn()
+                        yield r
+                        continue
+                    s["job"], s["n"] = None, s["n"] + 1
+                    if s["n"] >= tasks_per_child:
+                        retire(s)
+                        slots[i] = spawn()
+                    yield r
+                else:
+                    limit = int(job[1].get("timeout_s", 150 if tier == "quick" else 1500)) + int(os.environ.get("VERIF_KILL_GRACE", "180"))
+                    if now - s["t0"] > limit:
+                        retire(s, kill=True)
+                        slots[i] = spawn()
+                        yield lost(job, f"worker unresponsive after {int(now - s['t0'])} s (a solver call did not return): killed", now - s["t0"])
+    finally:
+        for s in slots:
+            retire(s, kill=True)
 
 
 def load_known(pid):
@@ -243,16 +341,14 @@ def main(argv=None):
                 stopped_early = len(results) < len(jobs)
                 break
     else:
-        ctxm = mp.get_context("spawn")
-        with ctxm.Pool(min(a.jobs, len(jobs)), maxtasksperchild=40) as pool:
-            for r in pool.imap_unordered(worker, jobs, chunksize=1):
-                results.append(r)
-                if a.v:
-                    nv = sum(1 for x in r["records"] if x["verdict"] == "violated")
-                    print(f"  [{len(results)}/{len(jobs)}] {r['key']} paths={r['paths']} obligations={len(r['records'])} violated={nv} {r['seconds']}s {r['error'] or ''}", flush=True)
-                if note(r):
-                    stopped_early = len(results) < len(jobs)
-                    break  # leaving the `with` block terminates the pool: the run already fails, the remaining configurations are not needed
+        for r in run_supervised(jobs, min(a.jobs, len(jobs)), a.tier):
+            results.append(r)
+            if a.v:
+                nv = sum(1 for x in r["records"] if x["verdict"] == "violated")
+                print(f"  [{len(results)}/{len(jobs)}] {r['key']} paths={r['paths']} obligations={len(r['records'])} violated={nv} {r['seconds']}s {r['error'] or ''}", flush=True)
+            if note(r):
+                stopped_early = len(results) < len(jobs)
+                break  # the generator's cleanup kills the workers: the run already fails, the remaining configurations are not needed
     results.sort(key=lambda r: r["key"])
     known = load_known(pid)
     n_obl = n_proved = n_incon = 0
